@@ -378,9 +378,14 @@ def run(check, repo: Repo) -> None:
                          fail_detail=f"the stretch maps {x0.n} to {v} (atoms {sym.atoms})")
     # interval affine part
     sym = Sym()
+    lim = next((n for n in ast.walk(bcall) if isinstance(n, ast.Assign) and isinstance(n.targets[0], ast.Tuple) and isinstance(n.value, ast.Call)
+                and (call_name(n.value) or "").endswith("get_limits")), None)
+    if lim is None or len(lim.targets[0].elts) != 2:
+        raise AnalysisError("BaseInterval.__call__: (vmin, vmax) = self.get_limits(values) not found")
+    lo_name, hi_name = [e.id for e in lim.targets[0].elts]
     for x0, want, label in ((Rat.sym("vmin"), Rat.const(0), "vmin→0"), (Rat.sym("vmax"), Rat.const(1), "vmax→1")):
         try:
-            v = _run_pipeline(sym, bp, x0, {"vmin": Rat.sym("vmin"), "vmax": Rat.sym("vmax")}, local_names=True)
+            v = _run_pipeline(sym, bp, x0, {lo_name: Rat.sym("vmin"), hi_name: Rat.sym("vmax")}, local_names=True)
         except AnalysisError as exc:
             check.error(f"C20-R3 BaseInterval: {exc}")
             continue
